@@ -154,8 +154,7 @@ pub fn case(ctx: &Ctx, env: &RealEnv, dir: &std::path::Path, case: u64, seed: u6
     let pred = super::predict_inv(&w, &inv.as_sim_inv());
     let hist = vec![J::obj().with("tasks", J::i(ntasks)).with("invocation", inv.to_json())];
     let mk = || J::obj().with("case", J::i(case)).with("invocation", inv.to_json()).with("trace", out.trace_json());
-    judge_real(ctx, rep, case, &hist, &proj_before, &pred, &inv, &out, &w);
-    if out.timed_out {
+    if !judge_real(ctx, rep, case, &hist, &proj_before, &pred, &inv, &out, &w) || out.timed_out {
         return;
     }
     // every task started exactly once (all dirty, independent, generous -k)
@@ -258,6 +257,10 @@ fn shell_case(ctx: &Ctx, env: &RealEnv, dir: &std::path::Path, case: u64, rng: &
     rep.evaluations += 1;
     rep.count("shell_cases", 1);
     let mk = || J::obj().with("case", J::i(case)).with("manifest", J::s(&manifest)).with("trace", out.trace_json());
+    if let Some(tool) = sanitizer_report(&out) {
+        rep.violation(&format!("sanitizer-report:{}", tool), &String::from_utf8_lossy(&out.stderr).chars().take(1500).collect::<String>(), mk());
+        return;
+    }
     if out.timed_out {
         rep.inconclusive.push(format!("case {}: timeout", case));
         return;
